@@ -29,6 +29,7 @@ REVIEWED = {
     ("optimiser::shake_0", "Expression::BooleanGroup($symbol, $expressions)"): "UNWRAP1",
     ("optimiser::shake_0", "Expression::BooleanExpression($left, $symbol, $right)"): "FLATTEN",
     ("optimiser::shake_0", "Expression::Negate($expression)"): "DNEG",
+    ("optimiser::shake_0", "Expression::Match($kind, $expression)"): "COUNTER-CONTEXT",
     ("optimiser::shake_1", "Expression::BooleanGroup(BoolSym::And, $expressions)"): "NESTED-MERGE-AND",
     ("optimiser::shake_1", "Expression::BooleanGroup(BoolSym::Or, $expressions)"): "OR-MERGE",
     ("optimiser::shake_1", "Expression::Match($kind, $expression)"): "COUNTER-CONTEXT",
@@ -238,6 +239,7 @@ def run(rep):
         law("LAW/coalesce/inline", "identifier(X) == definition of X", 2, E("Identifier", ("lit", "X")), E("BooleanGroup", SYM("And"), kids(2)), idents={"X": E("BooleanGroup", SYM("And"), kids(2))})
         law("LAW/coalesce/inline-under-match", "all(identifier(X)) == all(definition of X)", 2, E("Match", ("ctor", "Match", "All", []), E("Identifier", ("lit", "X"))),
             E("Match", ("ctor", "Match", "All", []), E("BooleanGroup", SYM("Or"), kids(2))), idents={"X": E("BooleanGroup", SYM("Or"), kids(2))})
+        nested_merge_law(rep, F)
         # or is fully symmetric (so re-ordering/merging inside an or-group is harmless); and is not (so ORDER-AND is needed)
         for k in (2, 3):
             base = E("BooleanGroup", SYM("Or"), kids(k))
@@ -268,6 +270,8 @@ def run(rep):
                 rep.check(negate_shape(a), "PASS-ARMS", "PASS-ARMS/shake_0/negate-shape", a["sp"], "Negate arm: shake the operand; collapse only Negate(Negate(x)); otherwise rebuild", s[:120])
             if ps == "Expression::BooleanGroup($symbol, $expressions)":
                 check_group_unwrap(rep, a, "shake_0")
+            if ps == "Expression::Match($kind, $expression)":
+                counter_context(rep, a, "shake_0", "optimiser::shake_0")
     # ---------------------------------------------------------------- ORDER-AND in shake_1 and matrix
     s1 = F.fn("optimiser::shake_1")
     if s1 is not None:
@@ -400,6 +404,58 @@ def run(rep):
     rep.exhaustive = False
     rep.assumptions.append("leaf predicates are oracles in the law evaluation; merging searches into automata / regex sets is covered by C07's LOCKSTEP/FLAG rules only at the alignment level")
     rep.assumptions.append("Nested-merge laws (nested(f,a) or nested(f,b) == nested(f, a or b)) are argued from the solver's nested arm (C10), not evaluated")
+
+
+def nested_merge_law(rep, F):
+    """shake_1 merges the and-members `f: {a}` and `f: {b}` into `f: all(group(S, [a, b]))`.  Over an array-valued f the unmerged
+    form asks each member existentially (some element satisfies a, some element satisfies b); the merged form is evaluated by the
+    solver's Nested/Array arm, which does the same only for the shape it special-cases.  The law evaluates that arm (extracted model,
+    members x elements oracle table) with the symbol S the optimiser really emits."""
+    import c10
+    s1 = F.fn("optimiser::shake_1")
+    syms = []
+    if s1 is not None:
+        for n in walk(s1.body):
+            if n.get("k") == "Adt" and n["adt"] == "parser::Expression" and n["variant"] == "Match":
+                fs = {f["name"]: f["e"] for f in n["fields"]}
+                k0 = peel(fs["0"])
+                inner = peel(fs["1"])
+                inner = peel(inner["args"][0]) if is_box_new(inner) else inner
+                if k0.get("k") == "Adt" and k0["variant"] == "All" and inner.get("k") == "Adt" and inner["adt"] == "parser::Expression" and inner["variant"] == "BooleanGroup":
+                    sy = peel({f["name"]: f["e"] for f in inner["fields"]}["0"])
+                    syms.append((sy.get("variant") if sy.get("k") == "Adt" else "?", n.get("sp")))
+    arm = c10.nested_array_arm(F)
+    if len(syms) != 1 or arm is None:
+        rep.lost("LAW", "LAW/shake_1/nested-merge", "the all(group(..)) constructor of shake_1's nested merge and the solver's Nested/Array arm", str(syms))
+        return
+    sym, site = syms[0]
+    run = c10.make_nested_runner(arm[0], arm[1])
+    E = lambda variant, *fields: ("ctor", "Expression", variant, list(fields))
+    bad = []
+    soft = []
+    try:
+        for k in (2, 3):
+            for m in (0, 1, 2):
+                cells = [(i, j) for i in range(k) for j in range(m)]
+                for vals in itertools.product("TFM", repeat=len(cells)):
+                    table = dict(zip(cells, vals))
+                    before = "T"
+                    for i in range(k):
+                        r = run(Child(i), 1, m, {(i, j): table[(i, j)] for j in range(m)})
+                        if r != "T":
+                            before = r
+                            break
+                    merged = E("Match", ("ctor", "Match", "All", []), E("BooleanGroup", ("ctor", "BoolSym", sym, []), ("list", [Child(i) for i in range(k)])))
+                    after = run(merged, k, m, table)
+                    if (before == "T") != (after == "T"):
+                        bad.append("k=%d m=%d %s: before=%s after=%s" % (k, m, "".join(vals), before, after))
+                    elif before != after:
+                        soft.append("k=%d m=%d %s: before=%s after=%s" % (k, m, "".join(vals), before, after))
+    except Unrecognised as e:
+        rep.lost("LAW", "LAW/shake_1/nested-merge", "array arm inside the model language", str(e)[:200])
+        return
+    rep.check(not bad, "LAW", "LAW/shake_1/nested-merge", site, "f:{a} and f:{b} == f: all(group(%s,[a,b])) over arrays: true in exactly the same cases" % sym.lower(), "; ".join(bad[:4]) if bad else None)
+    rep.check(not soft, "LAW", "LAW/shake_1/nested-merge-negated", site, "... and false/missing in the same cases (visible under a negation)", "; ".join(soft[:4]) if soft else None)
 
 
 def negate_shape(arm):
@@ -558,8 +614,61 @@ def order_and(rep, arm, pname, src, dst):
                         "`%s` is pushed while iterating `%s`, after all other operands: and is order sensitive (false vs missing)" % (what, it))
 
 
+def match_arm_keeps_group(arm, inner):
+    """The arm `Expression::Match(K, E) => ..` of a pass keeps the group that all()/of() count:
+         *E is BooleanGroup(S, V)  =>  Match(K, Box::new(BooleanGroup(S, [inner(m) for m in V])))     (member by member, in order)
+         otherwise X               =>  Match(K, Box::new(inner(X)))"""
+    kb, eb = strip_ref(subpat(arm["pat"], 0)), strip_ref(subpat(arm["pat"], 1))
+    if kb is None or eb is None or eb.get("k") != "Bind":
+        return False
+    scrut, brs = q.branches(unblock(arm["body"]))
+    if scrut is None or q.base_var(scrut) != eb["id"] or len(brs) != 2:
+        return False
+    (p0, b0), (p1, b1) = brs
+    if p0 is None or variant_of(p0) != ("Expression", "BooleanGroup") or b1 is None:
+        return False
+    sb, vb = strip_ref(subpat(p0, 0)), strip_ref(subpat(p0, 1))
+    if sb is None or vb is None or sb.get("k") != "Bind" or vb.get("k") != "Bind":
+        return False
+
+    def match_of(n):
+        """n = Expression::Match(K, Box::new(X)) -> X"""
+        n = unblock(n)
+        while n.get("k") == "Block" and n.get("expr") is not None:
+            n = unblock(n["expr"])
+        if not (n.get("k") == "Adt" and n["adt"] == "parser::Expression" and n["variant"] == "Match"):
+            return None
+        fs = {f["name"]: f["e"] for f in n["fields"]}
+        if kb.get("k") == "Bind" and q.var_id(fs["0"]) != kb["id"]:
+            return None
+        x = peel(fs["1"])
+        return peel(x["args"][0]) if is_box_new(x) else None
+    g = match_of(b0)
+    if g is None or not (g.get("k") == "Adt" and g["adt"] == "parser::Expression" and g["variant"] == "BooleanGroup"):
+        return False
+    gf = {f["name"]: f["e"] for f in g["fields"]}
+    if q.var_id(gf["0"]) != sb["id"]:
+        return False
+    out_id = q.var_id(gf["1"])
+    loops = [n for n in walk(b0) if n.get("k") == "For" and q.loop_over(n)[0] == vb["id"]]
+    if out_id is None or len(loops) != 1:
+        return False
+    l = loops[0]
+    pushes = [x for x in walk(b0) if call_is(x, "::push") and q.base_var(x["args"][0], b0) == out_id]
+    if len(pushes) != 1 or not q.contains(l["body"], pushes[0]) or not q._unconditional(l["body"], pushes[0]):
+        return False
+    v = q.resolve(l["body"], pushes[0]["args"][1])
+    if not (call_is(v, inner) and q.var_id(v["args"][0]) == strip_ref(q.loop_over(l)[1]).get("id")):
+        return False
+    # otherwise-branch: the binder of the catch-all arm (or the scrutinee itself) goes through `inner`
+    x = match_of(b1)
+    if x is None or not call_is(x, inner):
+        return False
+    xb = strip_ref(p1) if p1 is not None else None
+    arg = q.var_id(x["args"][0])
+    return (xb is not None and xb.get("k") == "Bind" and arg == xb["id"]) or q.base_var(x["args"][0]) == eb["id"]
+
+
 def counter_context(rep, arm, pname, inner):
     s = show(arm["body"])
-    want = ("match expression {Expression::BooleanGroup($symbol, $expressions) => {let $scratch = <T>::new(); for $expression in expressions {<T, A>::push(scratch, %s(expression))}; "
-            "Expression::Match(kind, <T>::new(Expression::BooleanGroup(symbol, scratch)))}, $expression => Expression::Match(kind, <T>::new(%s(expression)))}" % (inner, inner))
-    rep.check(s == want, "COUNTER-CONTEXT", "COUNTER-CONTEXT/%s/match-arm" % pname, arm["sp"], "a group under all()/of() is rebuilt member by member with the same symbol (no merging across members)", s[:160])
+    rep.check(match_arm_keeps_group(arm, inner), "COUNTER-CONTEXT", "COUNTER-CONTEXT/%s/match-arm" % pname, arm["sp"], "a group under all()/of() is rebuilt member by member with the same symbol (no merging or unwrapping of what is counted)", s[:160])
